@@ -338,8 +338,40 @@ def check_abuf_reset(ctx, prog):
     ctx.require(n >= 2, "R4.abuf: expected >= 2 reset sites of the attached buffer, found %d" % n)
 
 
+def check_abuf_usage(ctx, prog):
+    """the usage reported for the attached buffer is the sum over the slots still in use: the reclaim loop must reach
+    every released slot, not stop at the first one still occupied"""
+    fn = ctx.need_fn(prog, "abuf_coalesce")
+    found = False
+    for lp in patterns.loops(fn):
+        subtracts = [e for blk, i, e in lp.body_elems() if e.get("k") == "asg" and e.get("op") == "-=" and
+                     canon(e["a"]).endswith("abuf->size_used") and "req_size" in canon(e["b"])]
+        if not subtracts:
+            continue
+        found = True
+        # an exit from the loop taken because a slot is still in use
+        early = None
+        for b in lp.body_ext:
+            blk = fn.blocks[b]
+            if blk.cond is not None and "is_used" in canon(blk.cond):
+                for s_ in blk.succs:
+                    if s_ is not None and s_ not in lp.body and s_ != lp.head.id:
+                        early = blk
+                    elif s_ is not None and s_ in lp.body_ext and s_ not in lp.body:
+                        early = blk
+        if early is not None:
+            ctx.fail("R4.abuf", fn.name, "tail-run", "the reclaim loop stops at the first slot that is still in use: slots released "
+                     "below it keep counting, so after out-of-order completion ncmpi_inq_buffer_usage reports more than the "
+                     "bytes of the pending buffered puts (and NC_EINSUFFBUF is raised although space was released)", fn=fn,
+                     line=early.tl or fn.line, inst="abuf_coalesce:usage")
+        else:
+            ctx.ok("R4.abuf", "abuf_coalesce:usage", "every released slot is subtracted")
+    ctx.require(found, "abuf_coalesce: the loop that lowers size_used was not found")
+
+
 def check_abuf(ctx, prog):
     check_abuf_reset(ctx, prog)
+    check_abuf_usage(ctx, prog)
     # EINSUFFBUF test dominates the allocation
     for name in ("ncmpio_igetput_varm", "igetput_varn"):
         fn = ctx.need_fn(prog, name)
